@@ -12,7 +12,7 @@ claimed={
  "C05": ("Bounded symbolic model checking of fault handling in jtp.Get: refused connections, a cut or a stall after every byte position k of the response (k symbolic), trickling and silent peers, at either hop of a redirect; the fetch must end in an error (or the complete document if everything needed had arrived), within a bounded virtual time, and a read on a silent peer without a deadline is reported as a hang.", "5/C05"),
  "C06": ("Bounded symbolic model checking of crash-freedom: the real constructors and every item method run on well-formed base objects in which one key is dropped or replaced by an arbitrary JSON value (symbolic booleans and doubles, candidate strings, lists, objects), at negative, zero and positive widths and for every 64-bit link number; every reachable panic is a violation; minimal objects with an arbitrary value under any key the code reads (keys discovered from the current source); paging over cyclic and endlessly empty page chains must return (step-budget exhaustion is a violation). The 'promptly' half for deep nesting of the statement is outside this technique (DESIGN 8).", "5/C06"),
  "C07": ("Bounded symbolic model checking of ui.Update against a reference model of the documented keymap: every byte value for each key of short sequences over thread, list and empty pages, and one key from arbitrary states including over-long selection numbers; mode, buffer, history position and highlighted item must match after background loads settle, and no key may panic.", "5/C07"),
- "C08": ("Bounded model checking of schedules: the engine owns the scheduler, explores every order in which the event goroutines (keys, resizes, open/feed subcommands) and the loaders they start can acquire the UI lock, and checks every explored schedule with a vector-clock happens-before monitor over all loads and stores (UI state, the frame log behind the output callback, the fan-out results); a goroutine blocked for ever is a deadlock. Races are confirmed natively by the Go race detector.", "3.6, 4/C08"),
+ "C08": ("Bounded model checking of schedules: the engine owns the scheduler, explores every order in which the event goroutines (keys, resizes, open/feed subcommands) and the loaders they start can acquire the UI lock, and checks every explored schedule with a vector-clock happens-before monitor over all loads and stores (UI state, the frame log behind the output callback, the fan-out results); a goroutine blocked for ever is a deadlock. Races are confirmed natively by the Go race detector.", "2 (Goroutines), 5/C08"),
  "C09": ("Bounded symbolic model checking of the outbox, replies and author filters: the real constructors run against a scripted two-host world whose entries are legitimate or one of several impostor kinds; every entry must appear in its position, as a genuine item exactly when the generator's ground truth says so (including an actor URL with symbolic address/port digits).", "5/C09"),
  "C10": ("Bounded symbolic model checking of pub.Collection.Harvest through its continuations: symbolic page chains (embedded pages, empty pages, failing and ill-typed links, cycles), symbolic request sizes and start offset; delivered items must be the true sequence in order, a short answer or an error item must be justified by the end of the chain, a failing page or more than three consecutive empty pages.", "5/C10"),
  "C11": ("Bounded symbolic model checking of splicer.Splicer.Harvest over synthetic sources with symbolic timestamps and request sizes: every emitted item must be the next item of its source and a newest head (ties to the first source), answers are repeatable, a short answer means every source is exhausted, and the continuation is either empty or usable.", "5/C11"),
